@@ -61,8 +61,13 @@ pub fn property() -> Property {
     index!("lift8-i8-vec64-all", wide, 64 * lifts::SWEEP_PER_LANE, 768, ALL, lifts::sweep_all::<i8, Vec64<i8>, 64>);
     index!("lift8-u8-vec64-all", wide, 64 * lifts::SWEEP_PER_LANE, 768, ALL, lifts::sweep_all::<u8, Vec64<u8>, 64>);
 
+    // ---- the same object on both sides
+    let al = "every binary lifted op (checked / wrapping / saturating / overflowing / Euclid / checked Euclid, `==`, `!=`) as op(&v, &v) — THE SAME object on both sides — and as op(&v, &w) with w a distinct object of equal contents: all 13 vector types, every lane p, lane p sweeps all 256 values, backgrounds benign / the next / the previous lane fails on its own ((x,x) failing: MIN+MIN, MIN*MIN, MAX+MAX, 0/0); lane i = the scalar op on (v[i], v[i]); None / flag / panic iff some lane";
+    index!("lift8-aliased-i8", al, lifts::ALIAS_TOTAL, ALL, ALL, lifts::alias_all::<i8>);
+    index!("lift8-aliased-u8", al, lifts::ALIAS_TOTAL, ALL, ALL, lifts::alias_all::<u8>);
+
     // ---- sampled for the wider integer types
-    let sampled = "the same lifted ops on all 13 vector types for a wider integer type: small benign lanes, 1..3 hot lanes with stratified operands (limits, 2^k+-1, 0, -1, random)";
+    let sampled = "the same lifted ops on all 13 vector types for a wider integer type: small benign lanes, 1..3 hot lanes with stratified operands (limits, 2^k+-1, 0, -1, random); operand form two objects (3/4) / the same object op(&v,&v) (1/8) / two objects of equal contents (1/8)";
     tape!("lift-sampled-i16", sampled, 96, 20_000, 600_000, lifts::sampled::<i16>);
     tape!("lift-sampled-i32", sampled, 96, 20_000, 600_000, lifts::sampled::<i32>);
     tape!("lift-sampled-i64", sampled, 96, 20_000, 600_000, lifts::sampled::<i64>);
@@ -86,8 +91,12 @@ pub fn property() -> Property {
     index!("inv-f32", inv, lifts::inv_total::<f32>(), ALL, ALL, lifts::inv_all::<f32>);
     index!("inv-f64", inv, lifts::inv_total::<f64>(), ALL, ALL, lifts::inv_all::<f64>);
 
+    let eu = "Euclid::div_euclid / rem_euclid on float vectors, all 13 vector types: lane i = the scalar's (bit-exact); every lane position x every pair of special values (+-0, 1, subnormal, MAX, +-inf, NaN, ...) as two objects, and (v, v) as the same object / an equal vector";
+    index!("euclid-f32", eu, lifts::euclid_total::<f32>(), ALL, ALL, lifts::euclid_all::<f32>);
+    index!("euclid-f64", eu, lifts::euclid_total::<f64>(), ALL, ALL, lifts::euclid_all::<f64>);
+
     // ---- casts
-    let cv = "as_ (the `as` operator per lane), numcast (NumCast per lane; None iff some lane None), az / checked_as / saturating_as / wrapping_as / overflowing_as / unwrapped_as (per lane the scalar az trait; None / flag / panic iff some lane) on all 13 vector types, 24 (source, target) scalar pairs; 1..2 lanes hold boundary values (float classes, just inside / outside every integer range, integer limits), the others distinct benign values";
+    let cv = "as_ (the `as` operator per lane), numcast (NumCast per lane; None iff some lane None), az / checked_as / saturating_as / wrapping_as / overflowing_as / unwrapped_as and the six az trait impls called as traits (Cast / CheckedCast / SaturatingCast / WrappingCast / OverflowingCast / UnwrappedCast; per lane the scalar az trait; None / flag / panic iff some lane) on all 13 vector types, 24 (source, target) scalar pairs; 1..2 lanes hold boundary values (float classes, just inside / outside every integer range, integer limits), the others distinct benign values";
     tape!("cast-vectors", cv, 16, 48_000, 1_500_000, casts::cast_vectors);
     let cm_ = "as_ and numcast on the six matrix types, 24 scalar pairs, 1..2 elements at any (i,j) hold boundary values, the others distinct (so transposition shows)";
     tape!("cast-matrices", cm_, 16, 24_000, 720_000, casts::cast_matrices);
@@ -97,10 +106,20 @@ pub fn property() -> Property {
     tape!("cast-rects", cr, 24, 12_000, 360_000, casts::cast_rects);
 
     // ---- approximate equality
-    let ap = "abs_diff_eq / relative_eq / ulps_eq (and abs_diff_ne) on 13 vector types, 6 matrix types, quaternion: operands identical except one position (every lane / every (i,j)), which holds one of 24 pairs (0, 1 ulp, eps, 2 eps, 4/5 ulps, sign of zero, NaN, inf vs inf, inf vs -inf, large-relative-small-absolute, ...), both orders; 7 epsilons x 5 max_relative x 6 max_ulps plus the defaults; result = conjunction of the scalar predicate; default_* = the scalar's";
+    let ap = "abs_diff_eq / relative_eq / ulps_eq, abs_diff_ne / relative_ne / ulps_ne, the approx front-end macros with default tolerances, `==` / `!=` on 13 vector types, 6 matrix types, quaternion: operands identical except one position (every lane / every (i,j)), which holds one of 24 pairs (0, 1 ulp, eps, 2 eps, 4/5 ulps, sign of zero, NaN, inf vs inf, inf vs -inf, large-relative-small-absolute, ...), both orders; 7 epsilons x 5 max_relative x 6 max_ulps plus the defaults, plus the unusual tolerances (13 epsilons incl. negative / NaN / inf / MAX, each with 10 max_relative incl. 0 / 1 / >1 / inf / NaN and 9 max_ulps up to u32::MAX); result = conjunction of the scalar predicate; default_* = the scalar's";
     index!("approx-one-position-f32", ap, approxeq::ONE_LANE_TOTAL, ALL, ALL, approxeq::one_lane_all::<f32>);
     index!("approx-one-position-f64", ap, approxeq::ONE_LANE_TOTAL, ALL, ALL, approxeq::one_lane_all::<f64>);
-    let am = "the same predicates with several positions differing (each by its own kind), one tolerance triple per case";
+    let aa = "THE SAME object on both sides: v.abs_diff_eq(&v, e) / relative_eq / ulps_eq, their _ne forms, the approx front-end macros (what assert_relative_eq!(v, v) expands to), `==` / `!=`, and the same against a bitwise copy in another variable (both orders): 13 vector types, 6 matrix types, quaternion; every lane / (i,j) position holds one of 14 special values (NaN of both signs, +-inf, +-0, +-subnormal, MIN_POSITIVE, +-MAX, ordinary), the others distinct ordinary values or the same special value; ordinary tolerances plus 13 epsilons (0, -0, subnormal, MAX, inf, negative, -inf, NaN) x 10 max_relative (0, 1, >1, inf, negative, NaN) x 9 max_ulps (0 .. i32::MAX, 2^31, u32::MAX); result = conjunction of the scalar predicate on (v[i], v[i]) — false for a NaN lane, an inf lane under abs_diff_eq, a negative / NaN epsilon";
+    index!("approx-aliased-f32", aa, approxeq::ALIASED_TOTAL, ALL, ALL, approxeq::aliased_all::<f32>);
+    index!("approx-aliased-f64", aa, approxeq::ALIASED_TOTAL, ALL, ALL, approxeq::aliased_all::<f64>);
+    let ai = "AbsDiffEq (and abs_diff_ne, `==`, `!=`) of integer containers: 13 vector types, 6 matrix types, quaternion; one position holds one of 14 pairs (equal, off by 1 / 2, limits) in both orders, all epsilons (0, 1, 2, 6, 200, MAX; signed: -1, MIN); equal pairs also as the same object and as a bitwise copy; pairs whose difference overflows the type are excluded";
+    index!("approx-int-i8", ai, approxeq::INT_ABS_TOTAL, ALL, ALL, approxeq::int_abs_all::<i8>);
+    index!("approx-int-i32", ai, approxeq::INT_ABS_TOTAL, ALL, ALL, approxeq::int_abs_all::<i32>);
+    index!("approx-int-i64", ai, approxeq::INT_ABS_TOTAL, ALL, ALL, approxeq::int_abs_all::<i64>);
+    index!("approx-int-u8", ai, approxeq::INT_ABS_TOTAL, ALL, ALL, approxeq::int_abs_all::<u8>);
+    index!("approx-int-u32", ai, approxeq::INT_ABS_TOTAL, ALL, ALL, approxeq::int_abs_all::<u32>);
+    index!("approx-int-u64", ai, approxeq::INT_ABS_TOTAL, ALL, ALL, approxeq::int_abs_all::<u64>);
+    let am = "the same predicates with several positions differing (each by its own kind), one tolerance triple per case (ordinary 5/8, unusual 3/8: negative / NaN / inf epsilon, max_relative 0 / >1 / NaN, max_ulps up to u32::MAX); operand form two objects (3/4) / the same object / a bitwise copy (1/8 each, holding the drawn special values)";
     tape!("approx-mixed-f32", am, 224, 20_000, 600_000, approxeq::mixed_all::<f32>);
     tape!("approx-mixed-f64", am, 224, 20_000, 600_000, approxeq::mixed_all::<f64>);
 
@@ -110,13 +129,17 @@ pub fn property() -> Property {
 
     Property {
         id: "C20",
-        rule: "index checks enumerate a finite space (vector type, lane / element position, background, operand or pair kind) completely in both tiers except the *-all sweeps of Vec32/Vec64 (quick: seeded sample; thorough: complete); tape checks decode proptest byte tapes (vector type, scalar pair, hot positions, boundary values). Non-trivial: lifted ops — across the y sweep the varied lane both fails (None / flag / panic) and succeeds while the other lanes are fixed (sampled: some lane fails); casts — some lane fails the checked / NumCast conversion while the others do not; approx — the varied position makes the predicate false for some tolerance while all other positions are identical (mixed: at least one position differs); zero/one — a single special element on a uniform background",
+        rule: "index checks enumerate a finite space (vector type, lane / element position, background, operand or pair kind) completely in both tiers except the *-all sweeps of Vec32/Vec64 (quick: seeded sample; thorough: complete); tape checks decode proptest byte tapes (vector type, scalar pair, hot positions, boundary values). Non-trivial: lifted ops — across the y sweep the varied lane both fails (None / flag / panic) and succeeds while the other lanes are fixed (sampled: some lane fails); casts — some lane fails the checked / NumCast conversion while the others do not; approx — the varied position makes the predicate false for some tolerance while all other positions are identical (mixed: at least one position differs; same-object / bitwise-copy forms: some predicate is false on (v, v), i.e. an identity early-out would show); aliased lifts — as the lifted sweeps, with both operands the same object; integer abs_diff — some epsilon decides false; float Euclid — every case; zero/one — a single special element on a uniform background",
         assumptions: &[
             "rustc and the proptest runner/shrinker are trusted",
             "the scalar rule is the scalar's own impl of the same trait (num-traits Checked*/Wrapping*/Saturating*/Overflowing*/Euclid/Inv/NumCast, az casts, approx impls for f32/f64); for as_ it is the `as` operator",
             "vectors, matrices, quaternions and shapes are built and read through their public fields only",
             "mint's own array conversions (RowMatrixN from rows, ColumnMatrixN from columns) are trusted",
             "the harness profile has debug-assertions and overflow-checks on, for vek and for az alike, so az::Cast panics on overflow in both the lifted and the scalar call",
+            "tolerances outside the usual range (negative, NaN, infinite epsilon / max_relative; max_ulps up to u32::MAX) are accepted by approx's scalar impls without any documented restriction, so the lifted predicates must reproduce the scalar's answer lane by lane there too; nothing is asserted about what that answer should be",
+            "an operation applied to one object on both sides (op(&v, &v)) has the same per-lane meaning as on two objects: Rust references carry no identity semantics, and neither approx, num-traits nor vek document any",
+            "integer AbsDiffEq: approx's signed impl computes abs(x - y), which overflows (panics in this profile) for far-apart values; lane evaluation order and short-circuiting are unspecified, so pairs whose difference or its absolute value overflows are not generated",
+            "float results are compared bit for bit except that any NaN equals any NaN",
             "only the behaviour half of C20 is decided here; the feature-configuration build matrix is a separate tool",
         ],
         checks,
